@@ -1810,6 +1810,97 @@ def raptor_backlog_cancel(case, rp):
     return dict(confirmed=False, detail='%d raptor backlog cancels hold natively' % n)
 
 
+@builder('agent/scheduler/base.py:AgentSchedulingComponent._schedule_incoming#to-raptor',
+         'agent/scheduler/base.py:AgentSchedulingComponent.control_cb#relay-named',
+         'agent/scheduler/base.py:AgentSchedulingComponent.control_cb#relay-any',
+         'agent/scheduler/base.py:AgentSchedulingComponent.control_cb#master-gone')
+def raptor_forwarding(case, rp):
+    """histories of set-aside bulks, master registrations and de-registrations on the real
+    scheduler code: every task set aside for a raptor master is handed to exactly one
+    master queue, or failed when its master disappears, or still parked - never lost or doubled"""
+    import threading, itertools, random
+    import radical.utils as ru
+    from radical.pilot.agent.scheduler.base import AgentSchedulingComponent as ASC
+
+    class Q:
+        def __init__(self, name, log): self.name, self.log = name, log
+        def put(self, ts):
+            for t in (ts if isinstance(ts, list) else [ts]): self.log.append((self.name, t['uid']))
+
+    def run(ops):
+        c = object.__new__(ASC)
+        c._log, c._prof = Stub(), Stub()
+        c._scheduler_process = True
+        c._raptor_lock = threading.Lock()
+        c._raptor_queues, c._raptor_tasks = {}, {}
+        puts, failed, sent = [], [], []
+        c._fail_task = lambda t, e, d: failed.append(t['uid'])
+        saved = ru.zmq.Putter
+        ru.zmq.Putter = lambda queue, addr: Q(queue, puts)
+        n = [0]
+        try:
+            for op in ops:
+                if op[0] == 'bulk':                      # ('bulk', {name: k})
+                    to_raptor = {}
+                    for name, k in op[1].items():
+                        to_raptor[name] = []
+                        for _ in range(k):
+                            n[0] += 1
+                            t = {'uid': 'task.%03d' % n[0]}
+                            to_raptor[name].append(t); sent.append((t['uid'], name))
+                    env = dict(self=c, to_raptor=to_raptor, len=len, list=list, range=range)
+                    for name in to_raptor:
+                        env['name'] = name
+                        exec_fragment(rp, 'agent/scheduler/base.py', 'AgentSchedulingComponent._schedule_incoming',
+                                      'if name in self._raptor_queues:', env)
+                elif op[0] == 'register':
+                    c.control_cb('control_pubsub', {'cmd': 'register_raptor_queue', 'arg': {'name': op[1], 'queue': op[1], 'addr': 'x'}})
+                elif op[0] == 'unregister':
+                    c.control_cb('control_pubsub', {'cmd': 'unregister_raptor_queue', 'arg': {'name': op[1]}})
+        finally:
+            ru.zmq.Putter = saved
+        probs = []
+        parked = [t['uid'] for v in c._raptor_tasks.values() for t in v]
+        for uid, name in sent:
+            k = [q for q, u in puts if u == uid]
+            total = len(k) + failed.count(uid) + parked.count(uid)
+            if total != 1:
+                probs.append('%s (set aside for %s): handed to queues %s, failed %d times, parked %d times' % (uid, name, k, failed.count(uid), parked.count(uid)))
+            if k and name != '*' and k[0] != name:
+                probs.append('%s was set aside for master %s but handed to %s' % (uid, name, k[0]))
+        return probs
+
+    directed = [
+        [('bulk', {'m1': 2}), ('register', 'm1')],
+        [('register', 'm1'), ('bulk', {'m1': 2, '*': 3})],
+        [('bulk', {'*': 2}), ('bulk', {'*': 1, 'm2': 1}), ('register', 'm1'), ('register', 'm2')],
+        [('bulk', {'m1': 2}), ('bulk', {'m1': 1}), ('unregister', 'm1')],
+        [('register', 'm1'), ('register', 'm2'), ('bulk', {'*': 5}), ('unregister', 'm1'), ('bulk', {'m1': 1, '*': 2}), ('register', 'm1')],
+    ]
+    rnd = random.Random(99)
+    for _ in range(120):
+        ops, reg = [], set()
+        for _ in range(rnd.randint(2, 8)):
+            r = rnd.random()
+            if r < 0.5:
+                ops.append(('bulk', {nm: rnd.randint(1, 3) for nm in rnd.sample(['m1', 'm2', '*'], rnd.randint(1, 2))}))
+            elif r < 0.8:
+                nm = rnd.choice(['m1', 'm2'])
+                if nm not in reg: ops.append(('register', nm)); reg.add(nm)
+            elif reg:
+                nm = rnd.choice(sorted(reg)); ops.append(('unregister', nm)); reg.discard(nm)
+        directed.append(ops)
+    for k, ops in enumerate(directed):
+        try:
+            probs = run(ops)
+        except Exception as e:
+            probs = ['raised %r' % e]
+        if probs:
+            return dict(confirmed=True, detail='; '.join(probs[:3]), input=dict(history=ops),
+                        found_by='bounded native raptor forwarding histories (%d of %d)' % (k + 1, len(directed)))
+    return dict(confirmed=False, detail='%d raptor forwarding histories hold natively' % len(directed))
+
+
 @builder('raptor/master.py:Master._submit_tasks')
 def master_submit(case, rp):
     """the real Master._submit_tasks on bulks of requests of every mode: executable
